@@ -412,6 +412,19 @@ def gen_program(rng, rich=1.0):
         first = rng.randrange(n) if rng.random() < 0.3 else None
         framers.append({"sched": sched, "first": first, "frames": frames})
     mains = [i for i in range(nfr) if framers[i]["sched"] != "aux"]
+    used_aux = set()
+
+    def pick_aux(cands):
+        """an auxiliary no other clause uses yet; now and then a shared one"""
+        fresh = [a for a in cands if a not in used_aux]
+        if fresh and rng.random() < 0.93:
+            a = rng.choice(fresh)
+        elif cands and (not fresh) and rng.random() < 0.9:
+            return None
+        else:
+            a = rng.choice(cands)
+        used_aux.add(a)
+        return a
     for i, fr in enumerate(framers):
         is_aux = fr["sched"] == "aux"
         n = len(fr["frames"])
@@ -450,9 +463,13 @@ def gen_program(rng, rich=1.0):
             if rng.random() < 0.15:
                 items.append({"t": "let", "needs": gen_needs(rng, ctx, i)})
             if usable_aux and rng.random() < 0.22 * rich:
-                items.append({"t": "aux", "aux": rng.choice(usable_aux), "needs": []})
+                a = pick_aux(usable_aux)
+                if a is not None:
+                    items.append({"t": "aux", "aux": a, "needs": []})
             if usable_aux and rng.random() < 0.28 * rich:
-                items.append({"t": "aux", "aux": rng.choice(usable_aux), "needs": gen_needs(rng, ctx, i)})
+                a = pick_aux(usable_aux)
+                if a is not None:
+                    items.append({"t": "aux", "aux": a, "needs": gen_needs(rng, ctx, i)})
             if mains and rng.random() < 0.10:
                 ctl = rng.choice(["stop", "stop", "abort", "start", "run", "ready"])
                 tg = rng.choice([["me"], ["all"], [rng.choice(mains)]])
@@ -551,8 +568,9 @@ def _clock_need(rng, lo=1, hi=7):
     return {"k": "cd", "sh": 0, "op": "<", "v": rng.randrange(lo, hi)}
 
 
-def gen_aux_framer(rng, tagc, idx, higher_aux, full=False):
-    """an auxiliary that completes after n runs (n = 0: in its first run), or never"""
+def gen_aux_framer(rng, tagc, alloc, level, full=False):
+    """an auxiliary that completes after n runs (n = 0: in its first run), or never; `alloc(level)` creates a
+    further auxiliary framer (or returns an existing one, rarely) for a nested clause"""
     style = rng.random()
     frames = []
     first_items = _recs(rng, tagc, full)
@@ -575,14 +593,15 @@ def gen_aux_framer(rng, tagc, idx, higher_aux, full=False):
                 {"t": "act", "ctx": rng.choice(["enter", "recur"]), "act": {"k": "done"}}]})
     else:                                # never done
         frames.append({"over": None, "under": None, "items": first_items})
-    if rng.random() < 0.15:
+    if rng.random() < 0.12:
         frames[0]["items"].append({"t": "let", "needs": [_clock_need(rng)]})
     if rng.random() < 0.3:
         frames[0]["items"].append({"t": "act", "ctx": rng.choice(["enter", "recur", "exit"]),
                                    "act": {"k": "inc", "dst": rng.choice([1, 2]), "v": 1}})
-    if higher_aux and rng.random() < 0.25:
-        frames[0]["items"].append({"t": "aux", "aux": rng.choice(higher_aux),
-                                   "needs": [] if rng.random() < 0.4 else [_clock_need(rng)]})
+    if level < 2 and rng.random() < 0.3:
+        a = alloc(level + 1)
+        if a is not None:
+            frames[0]["items"].append({"t": "aux", "aux": a, "needs": [] if rng.random() < 0.4 else [_clock_need(rng)]})
     for f in frames:
         rng.shuffle(f["items"])
     return {"sched": "aux", "first": None, "frames": frames}
@@ -592,12 +611,24 @@ def gen_susp(rng, full=False):
     """programs centred on conditional auxiliaries at several depths, transitions out of suspended outlines,
     stop/abort bids at arbitrary ticks; .v0 is a tick counter driven by a clock framer"""
     tagc = [0]
-    naux = rng.choice([1, 2, 2, 3, 3, 4])
     nmain = rng.choice([1, 1, 2])
     clock = 0
     mains = list(range(1, 1 + nmain))
-    auxidx = list(range(1 + nmain, 1 + nmain + naux))
-    framers = [None] * (1 + nmain + naux)
+    framers = [None] * (1 + nmain)
+    share = 0.04                         # probability that a clause reuses an auxiliary of another clause
+
+    def alloc(level):
+        """index of the auxiliary framer for a new `aux` clause"""
+        existing = [k for k in range(1 + nmain, len(framers)) if framers[k] is not None]
+        if existing and rng.random() < share and level <= 1:
+            return rng.choice(existing)
+        if len(framers) >= 1 + nmain + 7:
+            return None
+        k = len(framers)
+        framers.append(None)
+        framers[k] = gen_aux_framer(rng, tagc, alloc, level, full)
+        return k
+    auxidx = None
     # clock framer: counts ticks in .v0 and may bid at a chosen tick
     citems = [{"t": "act", "ctx": "recur", "act": {"k": "inc", "dst": 0, "v": 1}}]
     cframes = [{"over": None, "under": None, "items": citems}]
@@ -635,14 +666,18 @@ def gen_susp(rng, full=False):
                     nds = [_clock_need(rng)]
                     if rng.random() < 0.2:
                         nds.append({"k": "cd", "sh": rng.choice([1, 2]), "op": rng.choice(["<", ">=", "=="]), "v": rng.randrange(3)})
-                    its.append({"t": "aux", "aux": rng.choice(auxidx), "needs": nds})
+                    a = alloc(0)
+                    if a is not None:
+                        its.append({"t": "aux", "aux": a, "needs": nds})
             if rng.random() < 0.15:
-                its.append({"t": "aux", "aux": rng.choice(auxidx), "needs": []})
+                a = alloc(0)
+                if a is not None:
+                    its.append({"t": "aux", "aux": a, "needs": []})
             for _ in range(rng.choice([0, 0, 1, 1, 2])):
                 far = rng.choice(["me", "next"] if j + 1 < n else ["me"]) if rng.random() < 0.3 else rng.randrange(n)
                 nds = [_clock_need(rng)] if rng.random() < 0.8 else [{"k": "re", "op": ">=", "n": rng.randrange(1, 5)}]
-                if rng.random() < 0.15:
-                    nds.append({"k": "dn", "fr": rng.choice(auxidx), "neg": rng.random() < 0.5})
+                if rng.random() < 0.15 and len(framers) > 1 + nmain:
+                    nds.append({"k": "dn", "fr": rng.randrange(1 + nmain, len(framers)), "neg": rng.random() < 0.5})
                 its.append({"t": "go", "far": far, "needs": nds})
             if j + 1 < n and rng.random() < 0.1:
                 its.append({"t": "timeout", "v": rng.choice([8, 16, 24, 32])})
@@ -657,7 +692,5 @@ def gen_susp(rng, full=False):
             rng.shuffle(its)
         framers[m] = {"sched": "active" if rng.random() < 0.9 else "inactive",
                       "first": rng.randrange(n) if rng.random() < 0.2 else None, "frames": frames}
-    for a in auxidx:
-        framers[a] = gen_aux_framer(rng, tagc, a, [x for x in auxidx if x > a], full)
     return {"ticks": rng.choice([6, 8, 10, 12, 14]), "period": rng.choice([8, 8, 4, 1]),
             "shares": [0, rng.randrange(3), rng.randrange(3)], "framers": framers}
